@@ -206,6 +206,7 @@ static void b_getopt(void)
 	if (verdict != RS_SILENT) {
 		CHECK("C11,C09", got == want, "a path addresses exactly the option reached by walking the tree one level at a time");
 		CHECK("C11,C06", got != NULL || (k_ctxflags & CFGF_IGNORE_UNKNOWN) || g_diag >= 1 || in_path[0] == 0, "an unresolved path is reported (unless unknown options are ignored)");
+		CHECK("C11,C06", got == NULL || g_diag == 0, "a path that resolves delivers no diagnostic");
 	}
 	CHECK("C11", t_rootopts[1].nvalues == NSEC && t_rootopts[0].nvalues == 0 && t_rootopts[1].values == (NSEC ? t_vals : NULL), "resolving a path changes nothing in the tree");
 }
